@@ -120,6 +120,8 @@ func init() {
 		"(*encoding/base64.Encoding).DecodeString":   natB64Decode,
 		"(*encoding/base64.Encoding).EncodeToString": natB64Encode,
 		"os.Exit":         natFatal,
+		"os.Setenv":       natNoop,
+		"os.Unsetenv":     natNoop,
 		"os.Getenv":       natConstStr(""),
 		"os.Getpid":       natZero,
 		"runtime.Gosched": natSleep, "runtime.GC": natNoop, "runtime.NumGoroutine": natZero, "runtime.Stack": natZero,
@@ -168,6 +170,9 @@ func (p *Path) callNative(g *G, fr *Frame, fv *FuncV, args []Value) (Value, int)
 	case strings.HasPrefix(name, "builtin:"):
 		return p.callBuiltin(g, fr, name[8:], args, fv)
 	case name == "noop":
+		if fv.sig != nil {
+			return p.zeroOfSig(fv.sig), stNext
+		}
 		return p.zeroResult(fv.fn), stNext
 	case name == "fatal":
 		p.end("fatal", "process exit via "+fv.fn.String()+p.where())
@@ -185,15 +190,33 @@ func (p *Path) callNative(g *G, fr *Frame, fv *FuncV, args []Value) (Value, int)
 	return f(p, g, fr, fv, args)
 }
 
-func (p *Path) zeroResult(fn *ssa.Function) Value {
-	res := fn.Signature.Results()
+func (p *Path) zeroResult(fn *ssa.Function) Value { return p.zeroOfSig(fn.Signature) }
+
+// zeroOfSig: zero results; interface results become no-op objects so that chained
+// calls on loggers / metric observers stay no-ops.
+func (p *Path) zeroOfSig(sig *types.Signature) Value {
+	res := sig.Results()
+	one := func(t types.Type) Value {
+		if _, ok := t.Underlying().(*types.Interface); ok && !isErrorType(t) {
+			return IfaceV{t: noopIfaceType, v: &NativeV{kind: "noop"}}
+		}
+		return p.zero(t)
+	}
 	switch res.Len() {
 	case 0:
 		return nil
 	case 1:
-		return p.zero(res.At(0).Type())
+		return one(res.At(0).Type())
 	}
-	return p.zero(res)
+	tv := make(TupleV, res.Len())
+	for i := range tv {
+		tv[i] = one(res.At(i).Type())
+	}
+	return tv
+}
+
+func isErrorType(t types.Type) bool {
+	return types.Identical(t, types.Universe.Lookup("error").Type())
 }
 
 func natNoop(p *Path, g *G, fr *Frame, fv *FuncV, args []Value) (Value, int) {
@@ -947,8 +970,12 @@ func (p *Path) fromReflect(o reflect.Value, t types.Type) Value {
 
 // ---------- native-typed interface values ----------
 
-func (p *Path) isNativeType(t types.Type) bool                       { return false }
-func (p *Path) nativeImplements(iv IfaceV, it *types.Interface) bool { return false }
+// noopIfaceType is the dynamic type of interface values returned by no-op packages
+// (prometheus observers, zap loggers): every method on them is a no-op.
+var noopIfaceType = types.NewNamed(types.NewTypeName(0, nil, "zznoop", nil), types.NewStruct(nil, nil), nil)
+
+func (p *Path) isNativeType(t types.Type) bool                       { return t == noopIfaceType }
+func (p *Path) nativeImplements(iv IfaceV, it *types.Interface) bool { return true }
 func (p *Path) nativeMethod(name string, args []Value) Value {
 	p.unsupported("native method " + name)
 	return nil
